@@ -159,7 +159,12 @@ theorem gateCascade_cases (ctx : Ctx) (hnf : ctx.isFunction = false) (st : St) (
               split
               · exact Or.inl ⟨_, rfl, SameIS.trans hp ⟨rfl, rfl⟩⟩
               · exact Or.inl ⟨_, rfl, SameIS.trans hp ⟨rfl, rfl⟩⟩
-              · rename_i c hor
+              · rename_i c hor0
+                have hor : lookupA ctx.oracle (oracleKey st2 n v) = some (.single c) := by
+                  unfold oracleAnswer at hor0
+                  split at hor0
+                  · simp at hor0
+                  · exact hor0
                 rcases emitFold_cases ctx hnf st2 n c with ⟨st', he, hs⟩ | ⟨m, st', he⟩ | ⟨st3, o, ho, he, hs1, hs2⟩
                 · exact Or.inl ⟨st', he, SameIS.trans hp hs⟩
                 · exact Or.inr (Or.inl ⟨m, st', he⟩)
@@ -269,8 +274,9 @@ theorem inheritInfo_fold (st2 st3 : St) (o fv : Name) (c : CInfo)
 
 /-! ### the fragment, its invariant, the oracle hypothesis -/
 
-/-- A node of the generic-folding fragment: no bodies, not a `Constant` node, no partial evaluator. -/
-def Plain (n : Node) : Prop := n.subs = [] ∧ n.isOp "Constant" = false ∧ ∀ v, lookupEvaluator n v = none
+/-- A node of the generic-folding fragment: no bodies, not a `Constant` node, no partial evaluator, no reference attribute. -/
+def Plain (n : Node) : Prop :=
+  n.subs = [] ∧ n.isOp "Constant" = false ∧ (∀ v, lookupEvaluator n v = none) ∧ hasRefAttr n = false
 
 def mentionsTop (n : Node) (x : Name) : Bool := n.inputs.contains (some x) || n.outputs.contains x
 
@@ -348,7 +354,7 @@ theorem processNode_plain (ctx : Ctx) (st : St) (n : Node) (hp : Plain n) (hsym 
       | none => (.keep n, st.note "gate:noimport")
       | some v => gateCascade ctx st n v) := by
   unfold processNode
-  simp only [substInputs_nil st n hsym, hp.2.1, Bool.false_eq_true, if_false, evalPartial, hp.2.2, finishNode]
+  simp only [substInputs_nil st n hsym, hp.2.2.2, hp.2.1, Bool.false_eq_true, if_false, evalPartial, hp.2.2.1, finishNode]
   cases lookupA ctx.imports n.domain <;> rfl
 
 theorem evalNodes_cons_some {f : Env V → Node → Option (Env V)} {ρ ρf : Env V} {n : Node} {rest : List Node}
